@@ -2,6 +2,7 @@
 //! usage: kv-core <Cnn> [--tier quick|thorough] [--replay file] [--opt k=v]
 
 mod checks;
+mod fixtures;
 #[allow(dead_code)]
 mod srv;
 
